@@ -340,6 +340,9 @@ def geo2grid(lat, lon, zone=0, ellipsoid=grs80, prj=utm):
             zone = int(f'{amgzone}{subzone}')
         else:
             zone = int((float(lon) - (prj.initialcm - (1.5 * prj.zonewidth))) / prj.zonewidth)
+            # the division can round up to the next zone just below a zone boundary
+            if float(lon) < prj.initialcm + (zone - 1.5) * prj.zonewidth:
+                zone -= 1
     if prj == isg:
         amgzone = int(str(zone)[:2])
         subzone = int(str(zone)[2])
